@@ -1072,31 +1072,37 @@ def card(I, s: SymSet):
     return _card_arr(I, s.arr, 0)
 
 
-def _enum_elements(arr):
-    """the generating elements of a set term built from the empty set by insertions and unions only (None otherwise)"""
+def _enum_elements(arr, guard=None):
+    """the generating elements [(guard, element)] of a set term built from the empty set by insertions, unions and if-then-else
+    of such terms only (None otherwise); an element belongs to the set when its guard holds"""
+    g = guard if guard is not None else z3.BoolVal(True)
     k = arr.decl().kind()
     if k == z3.Z3_OP_CONST_ARRAY:
         return [] if z3.is_false(arr.arg(0)) else None
     if k == z3.Z3_OP_STORE and z3.is_true(arr.arg(2)):
-        base = _enum_elements(arr.arg(0))
-        return None if base is None else base + [arr.arg(1)]
+        base = _enum_elements(arr.arg(0), guard)
+        return None if base is None else base + [(g, arr.arg(1))]
     if k == z3.Z3_OP_SET_UNION:
         out = []
-        for i in range(arr.num_args()):
-            e = _enum_elements(arr.arg(i))
+        for t in range(arr.num_args()):
+            e = _enum_elements(arr.arg(t), guard)
             if e is None:
                 return None
             out += e
         return out
+    if k == z3.Z3_OP_ITE:
+        a = _enum_elements(arr.arg(1), z3.And(g, arr.arg(0)))
+        b = _enum_elements(arr.arg(2), z3.And(g, z3.Not(arr.arg(0))))
+        return None if a is None or b is None else a + b
     return None
 
 
 def _exact_card(arr):
     def count(elems, keep):
         total = z3.IntVal(0)
-        for i, e in enumerate(elems):
-            first = z3.And(*[e != elems[j] for j in range(i)]) if i else z3.BoolVal(True)
-            total = total + z3.If(z3.And(first, keep(e)), 1, 0)
+        for i, (gi, e) in enumerate(elems):
+            first = z3.And(*[z3.Not(z3.And(gj, e == ej)) for gj, ej in elems[:i]]) if i else z3.BoolVal(True)
+            total = total + z3.If(z3.And(gi, first, keep(e)), 1, 0)
         return z3.simplify(total)
     elems = _enum_elements(arr)
     if elems is not None and len(elems) <= 12:
